@@ -297,7 +297,7 @@ func child(r *ev.Run, p *plan) {
 					l := t.Lines[v.At-1]
 					who = "/" + l.G + "/" + l.Op + "-" + l.Obj
 					if l.Op == "touch" {
-						who = "/" + l.G
+						who = "/" + l.G + "/" + l.via
 					}
 				}
 				r.Violate("trace/"+v.Invariant+who, fmt.Sprintf("the recorded run of the real server violates %s of GluonLocks at event %d:\n%s\n%s",
